@@ -165,6 +165,16 @@ pub struct Run {
     known: known::KnownFindings,
 }
 
+/// One KNOWN-FINDING line per finding and check: when a check runs in two build configurations the second one
+/// (VERIF_PART=seq) reports on stderr only.
+pub fn known_line(prop: &str, what: &str, id: &str) {
+    if std::env::var("VERIF_PART").map(|p| p == "seq").unwrap_or(false) {
+        eprintln!("known finding (also met in the sequential configuration): property={} [{}]", prop, id);
+    } else {
+        println!("KNOWN-FINDING: property={} {} [{}]", prop, what, id);
+    }
+}
+
 pub fn verif_root() -> std::path::PathBuf {
     std::env::var("VERIF_ROOT").map(Into::into).unwrap_or_else(|_| "/verif".into())
 }
@@ -500,7 +510,7 @@ impl Run {
             if self.known.is_open(k) {
                 let what = self.known.what(k);
                 if !self.known_hit.contains(k) {
-                    println!("KNOWN-FINDING: property={} {} [{}]", self.prop, what, k);
+                    known_line(self.prop, &what, k);
                     self.known_hit.push(k.clone());
                 }
                 eprintln!("known finding {} met in campaign {}", k, campaign);
@@ -582,7 +592,7 @@ impl Run {
         match (status.as_deref(), outcome) {
             (Some("open"), Err(_)) => {
                 if !self.known_hit.iter().any(|k| k == id) {
-                    println!("KNOWN-FINDING: property={} {} [{}]", self.prop, self.known.what(id), id);
+                    known_line(self.prop, &self.known.what(id), id);
                     self.known_hit.push(id.to_string());
                 }
             }
